@@ -41,6 +41,12 @@ def narrow (c : Cfg) (x : Nat) : Nat := x % c.M
 
 /-! ### checked primitives -/
 
+def bindR {α β : Type} (r : Res α) (f : α → Res β) : Res β :=
+  match r with
+  | .ok a => f a
+  | .oob w => .oob w
+  | .throw e => .throw e
+
 def put1 (buf : List Byte) (i : Nat) (b : Byte) : Res (List Byte) := Mem.write buf i [b] "store"
 
 def get1 (a : List Byte) (i : Nat) : Res Byte :=
@@ -76,6 +82,10 @@ def memcmp (a : List Byte) (i : Nat) (b : List Byte) (j n : Nat) : Res Int :=
 
 def zeros (c : Cfg) : List Byte := List.replicate (c.L + 1) 0
 
+/-- `memcpy( &mString[ off], src + spos, n)` -/
+def copyIn (buf : List Byte) (off : Nat) (src : List Byte) (spos n : Nat) : Res (List Byte) :=
+  bindR (Mem.read src spos n "memcpy") fun d => Mem.write buf off d "memcpy"
+
 /-- `strchr(str, ch) != nullptr` for a C string: scans up to and including the terminator -/
 def strchr : List Byte → Byte → Res Bool
   | [], _ => .oob "strchr"
@@ -85,25 +95,11 @@ def strchr : List Byte → Byte → Res Bool
 
 /-- `internalCopy(src)`: `mLength` is already set -/
 def internalCopy (s : FStr) (src : List Byte) : Res FStr :=
-  match (if s.len > 0 then
-          (match Mem.read src 0 s.len "memcpy" with
-           | .ok d => Mem.write s.buf 0 d "memcpy"
-           | .oob w => .oob w
-           | .throw e => .throw e)
-         else .ok s.buf) with
-  | .ok b =>
-    match put1 b s.len 0 with
-    | .ok b' => .ok ⟨b', s.len⟩
-    | .oob w => .oob w
-    | .throw e => .throw e
-  | .oob w => .oob w
-  | .throw e => .throw e
+  bindR (if s.len > 0 then copyIn s.buf 0 src 0 s.len else .ok s.buf) fun b =>
+  bindR (put1 b s.len 0) fun b' => .ok ⟨b', s.len⟩
 
 def assignP (c : Cfg) (s : FStr) (a : List Byte) : Res FStr :=
-  match cstrlen a with
-  | .ok n => internalCopy ⟨s.buf, narrow c (min c.L n)⟩ a
-  | .oob w => .oob w
-  | .throw e => .throw e
+  bindR (cstrlen a) fun n => internalCopy ⟨s.buf, narrow c (min c.L n)⟩ a
 
 def assignS (c : Cfg) (s : FStr) (d : Str) : Res FStr :=
   internalCopy ⟨s.buf, narrow c (min c.L d.length)⟩ (d ++ [0])
@@ -119,11 +115,7 @@ def ctorF (c : Cfg) (o : FStr) : Res FStr := assignF c (fresh c) o
 def ctorMove (c : Cfg) (o : FStr) : Res FStr :=
   if o.len > 0 then internalCopy ⟨zeros c, o.len⟩ o.buf else .ok ⟨zeros c, o.len⟩
 
-def clear (s : FStr) : Res FStr :=
-  match put1 s.buf 0 0 with
-  | .ok b => .ok ⟨b, 0⟩
-  | .oob w => .oob w
-  | .throw e => .throw e
+def clear (s : FStr) : Res FStr := bindR (put1 s.buf 0 0) fun b => .ok ⟨b, 0⟩
 
 /-! ### element access -/
 
@@ -135,11 +127,7 @@ def back (s : FStr) : Res Byte := get1 s.buf (if s.len = 0 then 0 else s.len - 1
 /-- `str()`: `std::string( mString, mLength)` -/
 def str (s : FStr) : Res Str := if s.len > 0 then Mem.read s.buf 0 s.len "str" else .ok []
 /-- what a reader of `c_str()` sees: the bytes before the first NUL -/
-def cstrView (s : FStr) : Res Str :=
-  match cstrlen s.buf with
-  | .ok n => Mem.read s.buf 0 n
-  | .oob w => .oob w
-  | .throw e => .throw e
+def cstrView (s : FStr) : Res Str := bindR (cstrlen s.buf) fun n => Mem.read s.buf 0 n
 
 /-! ### iterators: (object, index) pairs; `EndValue` is the maximum of `uint64_t` -/
 
@@ -182,16 +170,7 @@ def iterRev (c : Cfg) (s : FStr) : Res (List Byte) := iterRevLoop c s (c.L + 4) 
 
 /-- common tail of the mutators: `mLength = len; mString[ mLength] = '\0'` -/
 def finish (c : Cfg) (b : List Byte) (len : Nat) : Res FStr :=
-  match put1 b (narrow c len) 0 with
-  | .ok b' => .ok ⟨b', narrow c len⟩
-  | .oob w => .oob w
-  | .throw e => .throw e
-
-def bindR {α β : Type} (r : Res α) (f : α → Res β) : Res β :=
-  match r with
-  | .ok a => f a
-  | .oob w => .oob w
-  | .throw e => .throw e
+  bindR (put1 b (narrow c len) 0) fun b' => .ok ⟨b', narrow c len⟩
 
 /-- `insert( index, count, ch)` -/
 def insertCh (c : Cfg) (s : FStr) (index count ch : Nat) : Res FStr :=
@@ -207,10 +186,6 @@ def insertCh (c : Cfg) (s : FStr) (index count ch : Nat) : Res FStr :=
   else
     let count' := if count > c.L - s.len then c.L - s.len else count
     bindR (fill s.buf s.len count' ch) fun b2 => finish c b2 (s.len + count')
-
-/-- `memcpy( &mString[ off], src + spos, n)` -/
-def copyIn (buf : List Byte) (off : Nat) (src : List Byte) (spos n : Nat) : Res (List Byte) :=
-  bindR (Mem.read src spos n "memcpy") fun d => Mem.write buf off d "memcpy"
 
 /-- `insert( index, str, count)` -/
 def insertP (c : Cfg) (s : FStr) (index : Nat) (a : List Byte) (count : Nat) : Res FStr :=
@@ -816,9 +791,15 @@ def step (c cu : Cfg) (w : World) : Op → Res (World × Out)
 
 def World.init (c cu : Cfg) : World := ⟨fresh c, fresh c, fresh cu⟩
 
+/-- a history: an exception (`at()` beyond the end, dereferencing `end()`) is caught by the caller and
+    leaves the objects unchanged; an out-of-bounds access ends everything -/
 def run (c cu : Cfg) (w : World) : List Op → Res World
   | [] => .ok w
-  | op :: ops => bindR (step c cu w op) fun p => run c cu p.1 ops
+  | op :: ops =>
+    match step c cu w op with
+    | .ok p => run c cu p.1 ops
+    | .throw _ => run c cu w ops
+    | .oob x => .oob x
 
 end CelmaVerif.FixedString
 
